@@ -1,6 +1,11 @@
 package main
 
-// A long-lived SMT solver process driven over stdin/stdout (SMT-LIB2).
+// SMT back ends driven over stdin/stdout (SMT-LIB2). Every query is sent as one
+// fresh problem ((reset) + declarations + assertions + check-sat): z3's
+// tactic-based solvers, which are only used without push/pop, are an order of
+// magnitude faster on the FP/BV problems produced here. With more than one back
+// end configured the query is raced; the first definite answer (sat/unsat) wins
+// and the loser is killed and restarted lazily.
 
 import (
 	"bufio"
@@ -9,95 +14,87 @@ import (
 	"os"
 	"os/exec"
 	"strings"
+	"sync"
 	"time"
 )
 
-type Solver struct {
-	bin     string
-	args    []string
-	cmd     *exec.Cmd
-	in      io.WriteCloser
-	out     *bufio.Reader
-	defined map[int]int // term id -> scope level at which it was defined
-	level   int
-	timeout int // ms per check
-	// statistics
-	Queries  int
-	Sat      int
-	Unsat    int
-	Unknown  int
-	Time     time.Duration
-	Errors   []string
-	log      io.Writer
-	isCVC5   bool
-	seed     int
-	cur      strings.Builder
-	SlowDir  string
-	slowN    int
-}
-
 const endMarker = "<<VERIF-END>>"
 
-func NewSolver(bin string, timeoutMs int, seed int) (*Solver, error) {
-	s := &Solver{bin: bin, timeout: timeoutMs, seed: seed}
-	if strings.Contains(bin, "cvc5") {
-		s.isCVC5 = true
-		s.args = []string{"--incremental", "--lang=smt2", "--produce-models", fmt.Sprintf("--tlimit-per=%d", timeoutMs)}
-	} else {
-		s.args = []string{"-in", "-smt2"}
-	}
-	if err := s.start(); err != nil {
-		return nil, err
-	}
-	return s, nil
+type backend struct {
+	bin   string
+	args  []string
+	cmd   *exec.Cmd
+	in    io.WriteCloser
+	out   *bufio.Reader
+	cvc5  bool
+	alive bool
+	mu    sync.Mutex
 }
 
-func (s *Solver) start() error {
-	s.cmd = exec.Command(s.bin, s.args...)
-	in, err := s.cmd.StdinPipe()
+func newBackend(bin string, timeoutMs int) *backend {
+	b := &backend{bin: bin}
+	if strings.Contains(bin, "cvc5") {
+		b.cvc5 = true
+		b.args = []string{"--incremental", "--lang=smt2", "--produce-models", fmt.Sprintf("--tlimit-per=%d", timeoutMs)}
+	} else {
+		b.args = []string{"-in", "-smt2"}
+	}
+	return b
+}
+
+func (b *backend) start() error {
+	b.mu.Lock()
+	defer b.mu.Unlock()
+	cmd := exec.Command(b.bin, b.args...)
+	in, err := cmd.StdinPipe()
 	if err != nil {
 		return err
 	}
-	out, err := s.cmd.StdoutPipe()
+	out, err := cmd.StdoutPipe()
 	if err != nil {
 		return err
 	}
-	s.cmd.Stderr = s.cmd.Stdout
-	if err := s.cmd.Start(); err != nil {
+	cmd.Stderr = cmd.Stdout
+	if err := cmd.Start(); err != nil {
 		return err
 	}
-	s.in = in
-	s.out = bufio.NewReaderSize(out, 1<<16)
-	s.Reset()
+	b.cmd = cmd
+	b.in = in
+	b.out = bufio.NewReaderSize(out, 1<<16)
+	b.alive = true
 	return nil
 }
 
-func (s *Solver) Close() {
-	if s.cmd != nil {
-		s.in.Close()
-		s.cmd.Process.Kill()
-		s.cmd.Wait()
-		s.cmd = nil
+func (b *backend) kill() {
+	b.mu.Lock()
+	defer b.mu.Unlock()
+	if b.cmd != nil {
+		b.alive = false
+		b.in.Close()
+		b.cmd.Process.Kill()
+		b.cmd.Wait()
+		b.cmd = nil
 	}
 }
 
-func (s *Solver) send(str string) {
-	s.cur.WriteString(str)
-	if s.log != nil {
-		io.WriteString(s.log, str)
+// roundTrip sends text and returns the lines printed before the end marker.
+func (b *backend) roundTrip(str string) ([]string, error) {
+	if !b.alive {
+		if err := b.start(); err != nil {
+			return nil, err
+		}
 	}
-	io.WriteString(s.in, str)
-}
-
-// roundTrip sends the text followed by an echo marker and returns the lines printed before it.
-func (s *Solver) roundTrip(str string) ([]string, error) {
-	s.send(str)
-	s.send("(echo \"" + endMarker + "\")\n")
+	b.mu.Lock()
+	in, out := b.in, b.out
+	b.mu.Unlock()
+	if _, err := io.WriteString(in, str+"(echo \""+endMarker+"\")\n"); err != nil {
+		return nil, err
+	}
 	var lines []string
 	for {
-		line, err := s.out.ReadString('\n')
+		line, err := out.ReadString('\n')
 		if err != nil {
-			return lines, fmt.Errorf("solver died: %v (%s)", err, strings.Join(lines, " | "))
+			return lines, fmt.Errorf("solver %s died: %v (%s)", b.bin, err, strings.Join(lines, " | "))
 		}
 		line = strings.TrimRight(line, "\r\n")
 		if strings.Contains(line, endMarker) {
@@ -107,72 +104,160 @@ func (s *Solver) roundTrip(str string) ([]string, error) {
 			lines = append(lines, line)
 		}
 	}
-	for _, l := range lines {
-		if strings.Contains(l, "(error") {
-			s.Errors = append(s.Errors, l)
-		}
-	}
 	return lines, nil
+}
+
+type Solver struct {
+	backends []*backend
+	defined  map[int]int
+	timeout  int // ms per check
+	seed     int
+	cur      strings.Builder
+	winner   *backend
+	// statistics
+	Queries int
+	Sat     int
+	Unsat   int
+	Unknown int
+	Time    time.Duration
+	Errors  []string
+	Wins    map[string]int
+	log     io.Writer
+	SlowDir string
+	slowN   int
+}
+
+func NewSolver(bins string, timeoutMs int, seed int) (*Solver, error) {
+	s := &Solver{timeout: timeoutMs, seed: seed, Wins: map[string]int{}}
+	for _, bin := range strings.Split(bins, ",") {
+		bin = strings.TrimSpace(bin)
+		if bin == "" {
+			continue
+		}
+		s.backends = append(s.backends, newBackend(bin, timeoutMs))
+	}
+	if len(s.backends) == 0 {
+		return nil, fmt.Errorf("no solver configured")
+	}
+	s.Reset()
+	return s, nil
+}
+
+func (s *Solver) Close() {
+	for _, b := range s.backends {
+		b.kill()
+	}
 }
 
 func (s *Solver) Reset() {
 	s.cur.Reset()
 	s.defined = map[int]int{}
-	s.level = 0
-	var sb strings.Builder
-	if s.isCVC5 {
-		sb.WriteString("(reset)\n(set-logic ALL)\n")
-	} else {
-		sb.WriteString("(reset)\n")
-		fmt.Fprintf(&sb, "(set-option :timeout %d)\n", s.timeout)
-		fmt.Fprintf(&sb, "(set-option :random-seed %d)\n", s.seed)
-	}
-	s.send(sb.String())
 }
 
-// Load starts a fresh (non-incremental) problem with the given assertions.
-// z3's tactic-based solvers are only used without push/pop and are an order of
-// magnitude faster on the FP/BV queries produced here, so every query is sent whole.
+func (s *Solver) prelude(b *backend) string {
+	if b.cvc5 {
+		return "(reset)\n(set-logic ALL)\n"
+	}
+	return fmt.Sprintf("(reset)\n(set-option :timeout %d)\n(set-option :random-seed %d)\n", s.timeout, s.seed)
+}
+
+// Load starts a fresh problem with the given assertions.
 func (s *Solver) Load(asserts []*Term) {
 	s.Reset()
-	var sb strings.Builder
 	has := func(id int) bool { _, ok := s.defined[id]; return ok }
 	set := func(id int) { s.defined[id] = 0 }
 	for _, t := range asserts {
-		t.Emit(has, set, &sb)
-		sb.WriteString("(assert " + t.ref() + ")\n")
+		t.Emit(has, set, &s.cur)
+		s.cur.WriteString("(assert " + t.ref() + ")\n")
 	}
-	s.send(sb.String())
 }
 
 func (s *Solver) IsDefined(t *Term) bool { _, ok := s.defined[t.id]; return ok }
 
-// Check returns "sat", "unsat" or "unknown" (any error line makes it unknown).
+type raceResult struct {
+	b        *backend
+	res      string
+	err      error
+	errLines []string
+}
+
+func parseCheck(lines []string) (string, []string) {
+	res := "unknown"
+	var errs []string
+	for _, l := range lines {
+		l = strings.TrimSpace(l)
+		if l == "sat" || l == "unsat" || l == "unknown" {
+			res = l
+		}
+		if strings.Contains(l, "(error") {
+			errs = append(errs, l)
+		}
+	}
+	if len(errs) > 0 {
+		res = "unknown"
+	}
+	return res, errs
+}
+
+// Check returns "sat", "unsat" or "unknown" (any error line makes a back end's answer unknown).
 func (s *Solver) Check() string {
 	start := time.Now()
-	nerr := len(s.Errors)
-	lines, err := s.roundTrip("(check-sat)\n")
+	script := s.cur.String()
+	if s.log != nil {
+		io.WriteString(s.log, script+"(check-sat)\n")
+	}
+	ch := make(chan raceResult, len(s.backends))
+	for _, b := range s.backends {
+		go func(b *backend) {
+			lines, err := b.roundTrip(s.prelude(b) + script + "(check-sat)\n")
+			r, errs := parseCheck(lines)
+			ch <- raceResult{b: b, res: r, err: err, errLines: errs}
+		}(b)
+	}
+	res := "unknown"
+	s.winner = nil
+	pending := len(s.backends)
+	var allErrs []string
+	for pending > 0 {
+		rr := <-ch
+		pending--
+		if rr.err != nil {
+			rr.b.kill()
+			allErrs = append(allErrs, rr.err.Error())
+			continue
+		}
+		allErrs = append(allErrs, rr.errLines...)
+		if rr.res == "sat" || rr.res == "unsat" {
+			res = rr.res
+			s.winner = rr.b
+			s.Wins[rr.b.bin]++
+			break
+		}
+	}
+	if pending > 0 {
+		// kill the losers and wait for their reader goroutines so the back ends can be restarted safely
+		for _, b := range s.backends {
+			if b != s.winner {
+				b.kill()
+			}
+		}
+		for i := 0; i < pending; i++ {
+			<-ch
+		}
+	}
+	if res == "unknown" {
+		for _, e := range allErrs {
+			if len(s.Errors) < 20 {
+				s.Errors = append(s.Errors, e)
+			}
+		}
+	}
 	el := time.Since(start)
 	s.Time += el
 	s.Queries++
 	if s.SlowDir != "" && el > 5*time.Second {
 		s.slowN++
-		os.WriteFile(fmt.Sprintf("%s/slow-%d-%d-%.0fs.smt2", s.SlowDir, os.Getpid(), s.slowN*1000+s.cmd.Process.Pid%1000, el.Seconds()), []byte(s.cur.String()), 0o644)
-	}
-	res := "unknown"
-	if err == nil && len(s.Errors) == nerr {
-		for _, l := range lines {
-			l = strings.TrimSpace(l)
-			if l == "sat" || l == "unsat" || l == "unknown" {
-				res = l
-			}
-		}
-	}
-	if err != nil {
-		s.Errors = append(s.Errors, err.Error())
-		// restart the solver so later queries still work
-		s.Close()
-		s.start()
+		os.WriteFile(fmt.Sprintf("%s/slow-%d-%p-%d-%.0fs-%s.smt2", s.SlowDir, os.Getpid(), s, s.slowN, el.Seconds(), res), []byte(script+"(check-sat)\n"), 0o644)
 	}
 	switch res {
 	case "sat":
@@ -185,9 +270,12 @@ func (s *Solver) Check() string {
 	return res
 }
 
-// GetValues returns the model values of the given variables as raw SMT-LIB text.
+// GetValues returns the model values (raw SMT-LIB text) from the back end that answered sat.
 func (s *Solver) GetValues(vars []*Term) (map[string]string, error) {
 	res := map[string]string{}
+	if s.winner == nil {
+		return nil, fmt.Errorf("no model available")
+	}
 	for i := 0; i < len(vars); i += 50 {
 		j := i + 50
 		if j > len(vars) {
@@ -200,7 +288,7 @@ func (s *Solver) GetValues(vars []*Term) (map[string]string, error) {
 			sb.WriteByte(' ')
 		}
 		sb.WriteString("))\n")
-		lines, err := s.roundTrip(sb.String())
+		lines, err := s.winner.roundTrip(sb.String())
 		if err != nil {
 			return nil, err
 		}
